@@ -6,7 +6,7 @@ CONSTANTS
   NP = 2
   Names = {"a", "b"}
   Vals = {1}
-  Acts = {"CreateGroup", "CreateObject", "AddData", "AddToGroup", "SetFlag", "RemoveViaWorkspace", "RemoveViaParent", "RemovePG", "Close", "Open", "Copy", "DropRef", "Collect", "Purge", "LookupDead", "RemoveFromGroup", "Move"}
+  Acts = {"CreateGroup", "CreateObject", "AddData", "AddToGroup", "SetFlag", "RemoveViaWorkspace", "RemoveViaParent", "RemovePG", "Close", "Open", "Copy", "DropRef", "Collect", "Purge", "LookupDead", "RemoveFromGroup", "Move", "RemoveBlocked"}
   Deviations = {"CloseKeepsOrphans"}
   MaxDepth = 6
 CONSTRAINT DepthBound
